@@ -9,6 +9,7 @@ import PyProb.Model.Bloom
 import PyProb.Model.Expanding
 import PyProb.Model.CMS
 import PyProb.Model.Cuckoo
+import PyProb.Model.QF
 
 namespace PyProb.Drv
 open PyProb
@@ -79,6 +80,7 @@ inductive Obj
   | rotating (r : Rotating) (h : Hashing)
   | cm (c : CmObj) (h : Hashing)
   | cuckoo (c : Cuckoo) (seed : Int)
+  | qf (s : QF)
 
 structure St where
   objs : Std.HashMap Nat Obj := {}
